@@ -108,13 +108,16 @@ func mutateTokens(r *rng.R, toks []sg.Token) string {
 // C15: the schema parser records exactly what the source says, or errors.
 func C15(c *runner.Cfg) *report.Result {
 	res := report.New("C15", "")
-	res.Rule = "(1) syntax trees from a grammar-directed generator (imports with aliases, options, enums, messages, structs, services and subservices with every method form, contextual keywords as names, tags up to 65535) are rendered with randomized whitespace, comments and optional separators; the canonical dump of the parser's tree (verifhook/vlang.ParseDump) must equal the canonical dump of the generated tree; (2) token-level mutants of those renderings (delete/duplicate/swap/replace/truncate at token and at character level, scanner-hostile lexemes: NUL, char/float/raw-string literals, non-decimal and out-of-range integers, unterminated strings and comments, private-use characters in place of a token): no panic; texts the harness's own tokenizer classifies as lexically invalid must be rejected; accepted texts must record as many definitions as the token stream delimits and must re-print to a fixed point (parse -> dump -> rebuild -> print -> parse -> same dump); non-trivial = text with at least one definition; distinct = distinct texts"
+	res.Rule = "(1) syntax trees from a grammar-directed generator (imports with aliases, options, enums, messages, structs, services and subservices with every method form, contextual keywords as names, tags up to 65535, qualified references spelled like builtin types such as `x.string` or `[]pkg.bin128`) are rendered with randomized whitespace, comments and optional separators; the canonical dump of the parser's tree (verifhook/vlang.ParseDump) must equal the canonical dump of the generated tree; (2) token-level mutants of those renderings (delete/duplicate/swap/replace/truncate at token and at character level, scanner-hostile lexemes: NUL, char/float/raw-string literals, non-decimal and out-of-range integers, unterminated strings and comments, private-use characters in place of a token): no panic; texts the harness's own tokenizer classifies as lexically invalid must be rejected; accepted texts must record as many definitions as the token stream delimits and must re-print to a fixed point (parse -> dump -> rebuild -> print -> parse -> same dump); non-trivial = text with at least one definition; distinct = distinct texts"
 	n := c.N(1200, 120000)
 	c.Cases("C15/gen", n, func(idx int, _ *journal.Slot) {
 		r := rng.New(c.Seed, "c15/gen", uint64(idx))
 		s := sg.Generate(r, sg.GenCfg{Pkgs: 1 + r.Intn(3), Tag: fmt.Sprintf("vt%d", idx), GoRoot: "verifscratch/x", Services: true, MaxFields: 10})
 		for _, p := range s.Pkgs {
 			for _, f := range p.Files {
+				// parser-only twists (the texts are parsed, never compiled): qualified references
+				// whose name is spelled like a builtin type or a keyword, under an arbitrary qualifier
+				twistTypes(rng.New(c.Seed, "c15/twist", uint64(idx)), f)
 				want := f.Dump()
 				for variant := 0; variant < 3; variant++ {
 					var text string
@@ -229,5 +232,38 @@ func judgeMutant(res *report.Result, stream string, idx int, text string) {
 	}
 	if defs > 0 {
 		res.Nontrivial(rng.HashString(text))
+	}
+}
+
+// twistTypes replaces some types of the file with syntactically valid references that only a parser
+// sees: `alias.string`, `[]x.bytes`, `pkg.bin128`, a qualifier equal to a
+// builtin name. The tree must record a qualified reference exactly as written.
+func twistTypes(r *rng.R, f *sg.File) {
+	builtin := []string{"bool", "byte", "int16", "int32", "int64", "uint16", "uint32", "uint64", "float32", "float64", "bin64", "bin128", "bin256", "bytes", "string"}
+	qual := []string{"pkg", "x", "types", "string", "int32", "q1"}
+	twistL := func(t *sg.Type, mayList bool) *sg.Type {
+		if t == nil || r.Intn(7) != 0 {
+			return t
+		}
+		ref := &sg.Type{Kind: sg.TRef, Import: qual[r.Intn(len(qual))], Name: builtin[r.Intn(len(builtin))]}
+		if t.Kind == sg.TList || (mayList && r.Intn(4) == 0) {
+			return &sg.Type{Kind: sg.TList, Elem: ref}
+		}
+		return ref
+	}
+	twist := func(t *sg.Type) *sg.Type { return twistL(t, false) } // a method's single types are not lists
+	fields := func(fs []sg.Field) {
+		for i := range fs {
+			fs[i].Type = twistL(fs[i].Type, true)
+		}
+	}
+	for _, d := range f.Defs {
+		fields(d.Fields)
+		for i := range d.Methods {
+			m := &d.Methods[i]
+			fields(m.InFields)
+			fields(m.OutFields)
+			m.InType, m.OutType, m.ChanIn, m.ChanOut = twist(m.InType), twist(m.OutType), twist(m.ChanIn), twist(m.ChanOut)
+		}
 	}
 }
